@@ -42,6 +42,7 @@ def ensure_registered():
         return 'Direct!'
     _reg.append(1)
     registry.get().snap()        # the Direct printer belongs to the baseline snapshot
+    sched.cooperate_locks(pkgdir())
 
 
 def scenario(name):
